@@ -421,6 +421,26 @@ pub fn check_level(root: &Level, path: &[String], level: &Level, ctx: &mut Ctx) 
                         return fail("item-help-text-missing", format!("command {} description {}", c.name, m));
                     }
                 }
+                // the whole first line of the description, fragment by fragment
+                let src = if c.help.is_some() { &c.help } else { &c.level.info.descr };
+                if let Some(d) = src {
+                    let flat = d.flat();
+                    let first_line: String = flat
+                        .lines()
+                        .next()
+                        .unwrap_or("")
+                        .chars()
+                        .filter(|ch| !ch.is_whitespace())
+                        .collect();
+                    let rest: String = body[pos..].chars().filter(|ch| !ch.is_whitespace()).collect();
+                    let term_sq: String = term.chars().filter(|ch| !ch.is_whitespace()).collect();
+                    if !first_line.is_empty() && !rest.starts_with(&format!("{}{}", term_sq, first_line)) {
+                        return fail(
+                            "command-description-garbled",
+                            format!("command {}: the list does not show {:?} right after the name", c.name, flat.lines().next().unwrap_or("")),
+                        );
+                    }
+                }
                 // secondary names of the command are not shown as terms
                 for l in &c.longs {
                     if body.contains(&format!("    {}", l)) {
